@@ -391,10 +391,16 @@ func (n NaturalLanguageValues) MarshalJSON() ([]byte, error) {
 	}
 	b.Write([]byte{'{'})
 	empty := true
+	written := make(map[LangRef]struct{}, l)
 	for _, val := range n {
 		if len(val.Ref) == 0 || len(val.Value) == 0 {
 			continue
 		}
+		// NOTE: a language can appear only once in a JSON map, the first value wins (as for Get)
+		if _, ok := written[val.Ref]; ok {
+			continue
+		}
+		written[val.Ref] = struct{}{}
 		if !empty {
 			b.Write([]byte{','})
 		}
